@@ -19,6 +19,7 @@ import (
 
 // Case is the replayable descriptor of one structural mutation.
 type Case struct {
+	Half    string   `json:"half"` // always "validation" (routes the replay inside package c10)
 	Network string   `json:"network"`
 	Trace   []string `json:"trace"`
 	Seed    int64    `json:"seed"`
@@ -339,7 +340,7 @@ func deepCopySupp(bs consensus.V1BlockSupplement) consensus.V1BlockSupplement {
 func probe(c *vf.Ctx, x *chain.Explorer, prev *chain.World, b types.Block, bs consensus.V1BlockSupplement, target, path string, trace []string, reseal bool) {
 	cs := prev.CS
 	report := func(entry string, p any, st string) {
-		cse := Case{Network: prev.Spec.Name, Trace: trace, Seed: c.Seed, Target: target, Path: path, Entry: entry}
+		cse := Case{Half: "validation", Network: prev.Spec.Name, Trace: trace, Seed: c.Seed, Target: target, Path: path, Entry: entry}
 		c.Violate("validate|"+entry+"|panic:"+panicClass(p)+"|"+target+stable(path), fmt.Sprintf("[%s height %d] %s panicked on a block mutated at %s%s: %v\n%s", prev.Spec.Name, prev.ChildHeight(), entry, target, path, p, firstLines(st, 14)), cse)
 	}
 	if reseal {
